@@ -87,6 +87,12 @@ pub struct Gen {
 fn make_name(rng: &mut Rng, i: usize, profile: Profile) -> String {
     let big = profile == Profile::BigName;
     if !big {
+        // one time in five: a family of names that are prefixes / case variants / padded
+        // variants of one another
+        if rng.chance(1, 5) {
+            let fam = ["p", "pp", "ppp", "P", "p ", " p", "p\u{0}", "p/", "pp "];
+            return fam[(i + rng.below(3) as usize * 3) % fam.len()].to_string();
+        }
         return match rng.below(6) {
             0 => format!("q{}", i),
             1 => format!("queue-{}-\u{3b1}\u{3b2}", i),
